@@ -29,6 +29,9 @@ Storage(t) == IF t.k = "enum" THEN t.base
               ELSE IF t.k = "char" THEN [k |-> "int", name |-> "char", size |-> 1, signed |-> FALSE, align |-> 1]
               ELSE t
 
+\* a pointer is stored as the configured unsigned integer type (m.ptr = its width in bytes): uint8/16/32/64 are aligned to
+\* their size, the odd widths as the library's integer types of that width are (uint24 -> 4, uint48 -> 8)
+PtrAlign(m) == IF m.ptr = 3 THEN 4 ELSE IF m.ptr = 6 THEN 8 ELSE m.ptr
 AlignOf(t, m) ==
   CASE t.k = "int"   -> t.align
     [] t.k = "float" -> t.size
@@ -36,7 +39,7 @@ AlignOf(t, m) ==
     [] t.k = "wchar" -> 2
     [] t.k = "leb"   -> 1
     [] t.k = "void"  -> 1
-    [] t.k = "ptr"   -> m.ptr
+    [] t.k = "ptr"   -> PtrAlign(m)
     [] t.k = "enum"  -> AlignOf(t.base, m)
     [] t.k = "arr"   -> AlignOf(t.elem, m)
     [] t.k \in {"struct", "union"} ->
